@@ -31,7 +31,7 @@ def panic_inventory(crate, syn, prop="C16"):
     just = _just(crate.name)
     sites = []
     for b in crate.bodies:
-        for s in panics.sites_in(b):
+        for s in panics.sites_in(b, crate):
             s["caller"] = fold(s["caller"])
             sites.append(s)
     guards = _syntactic_guards(crate, syn, r, prop)
